@@ -165,7 +165,7 @@ public:
     auto mv = GetValuePresolver().PostsolveIIS({ variis, pre::ValueMapInt(mm) });
     return { mv.GetVarValues()(), mv.GetConValues()() };
   }
-  ArrayRef<double> Ray() override { auto mv = GetValuePresolver().PostsolveSolution({ dvec("ray", mon::S().nvars) }); return mv.GetVarValues()(); }
+  ArrayRef<double> Ray() override { auto mv = GetValuePresolver().PostsolveSolution({ dvec("ray", mon::S().nvars) }); std::vector<double> v = mv.GetVarValues()(); return ArrayRef<double>(std::move(v)); }   // owning
   ArrayRef<double> DRay() override { return {}; }
   double MIPGap() override { auto v = dvec("mipgap", 1); return v.empty() ? 0 : v[0]; }
   double MIPGapAbs() override { auto v = dvec("mipgapabs", 1); return v.empty() ? 0 : v[0]; }
